@@ -98,6 +98,12 @@ def hazards(g, builtin_names) -> list[str]:
                 out.append("{0}")
             if n[0] == "minmax" and (n[3] == 0 or n[3] < n[2]):
                 out.append("min > max")
+            # pest parses repetition counts as u32 and PEEK bounds as i32 after the syntax check and rejects what
+            # does not fit; python-pest may accept or reject such numbers
+            if n[0] in ("exact", "min", "max", "minmax") and any(isinstance(v, int) and v > 0xFFFFFFFF for v in n[2:]):
+                out.append("number beyond u32")
+            if n[0] == "slice" and any(isinstance(v, int) and not -0x80000000 <= v <= 0x7FFFFFFF for v in n[1:]):
+                out.append("number beyond i32")
             if n[0] in ("str", "ci", "pushlit", "range"):
                 for s in n[1:]:
                     if isinstance(s, str) and any(0xD800 <= ord(c) < 0xE000 for c in s):
@@ -277,6 +283,38 @@ def token_mutations(rng, text, n):
     return out
 
 
+BAD_DIGITS = ["+", "-", "_", " ", "\uff14", "g", "G", "\u0663", "x", "\t", "", "\u0660", "Z", ".", "}"]
+
+
+def literal_matrix():
+    """Deterministic matrix: every escape form, intact and damaged (each hex digit position x each character that
+    a lenient integer parser would tolerate, truncations, wrong case, stray blanks), in every literal position
+    (string, case-insensitive string, PUSH_LITERAL argument, both ends of a character range). The meta-grammar
+    oracle decides which texts are valid and what the valid ones denote."""
+    bodies = ["\\n", "\\r", "\\t", "\\\\", "\\0", '\\"', "\\'", "\\x41", "\\x7f", "\\xFF", "\\xe9", "\\u{41}", "\\u{0041}",
+              "\\u{10FFFF}", "\\u{00e9}", "\\u{1F600}", "\\u{000041}", "a", "\u00e9", "'", '"']
+    for esc in ("\\x41", "\\xe9", "\\u{41}", "\\u{0041}", "\\u{10FFFF}", "\\u{00e9}"):
+        first = 2 if esc[1] == "x" else 3
+        last = len(esc) if esc[1] == "x" else len(esc) - 1
+        for i in range(first, last):
+            for bad in BAD_DIGITS:
+                bodies.append(esc[:i] + bad + esc[i + 1 :])
+                bodies.append(esc[:i] + bad + esc[i:])  # inserted rather than replaced
+    bodies += ["\\", "\\x", "\\x4", "\\u", "\\u{", "\\u{}", "\\u{4", "\\u{41", "\\u41}", "\\u{1234567}", "\\u{110000}",
+               "\\u{D800}", "\\q", "\\N", "\\X41", "\\U{41}", "\\ ", "\\u{ 41}", "\\u{41 }", "\\x 4", "\\x4 1", "\\u {41}",
+               "\\\\n", "\\\\x41", "\\\\u{41}", "\\\\\\", "\\\\\\\\", "\\\\\\n"]
+    out = []
+    for b in dict.fromkeys(bodies):
+        out.append('a = { "' + b + '" }')
+        out.append('a = { "z' + b + 'z" }')
+        out.append('a = { ^"' + b + '" }')
+        out.append('a = { ^"k' + b + 'K" }')
+        out.append('a = { PUSH_LITERAL("' + b + '") ~ PEEK }')
+        out.append("a = { '" + b + "'..'\\u{10FFFF}' }")
+        out.append("a = { '\\u{0}'..'" + b + "' }")
+    return out
+
+
 # ----------------------------------------------------------------------------- plumbing
 
 
@@ -329,6 +367,10 @@ def run_shard(ctx: Ctx, spec):
             text = open(f, encoding="utf-8").read()
             run_texts(ctx, worker, [text], "bundled", builtin_names)
             run_texts(ctx, worker, token_mutations(rng, text, size["mut"] * 10), "bundled-mutation", builtin_names)
+        # (4) deterministic literal / escape matrix
+        lm = literal_matrix()
+        run_texts(ctx, worker, [t for j, t in enumerate(lm) if j % 16 == idx], "literal-matrix", builtin_names)
+        ctx.exhaustive.update({"literal_matrix_texts": len(lm)})
         # (2) free layout
         for i in range(size["free"]):
             text = free_text(rng)
